@@ -851,8 +851,8 @@ class Time(object):
                              microsecond=self.nanosecond // Time.MICRO)
 
     def _from_timestamp(self, t):
-        if t >= Time.DAY:
-            raise ValueError("value must be less than number of nanoseconds in a day (%d)" % Time.DAY)
+        if not 0 <= t < Time.DAY:
+            raise ValueError("value must be non-negative and less than number of nanoseconds in a day (%d)" % Time.DAY)
         self.nanosecond_time = t
 
     def _from_timestring(self, s):
